@@ -260,3 +260,25 @@ PROPS["C19"] = {
     "level_text": "Bounded symbolic model checking: the fault position is a solver-chosen value and, on the context harnesses, the whole input suffix is symbolic; position bookkeeping of every error path reached is compared with the injected position.",
     "level_note": "Bounds in evidence. Trusted: go/ssa, gosym, z3.",
 }
+
+# ---------------------------------------------------------------- C16
+PROPS["C16"] = {
+    "jobs": [
+        Job("soyhtml", "H_escapeUri", "0..2", workers=8),
+        Job("soyhtml", "H_escapeJs", "0..2,0..4", workers=8),
+        Job("soyhtml", "H_truncate", "0..3,0..5,0..2", workers=16),
+        Job("soyhtml", "H_wordBreaks", "0..3,1..3", workers=16),
+        Job("soyhtml", "H_newlineToBr", "0..3", workers=8, maxfan=300),
+        Job("soyhtml", "H_chain", "0..4", workers=8),
+        Job("soyhtml", "H_escapeUri", "3", tier="thorough", workers=16),
+        Job("soyhtml", "H_escapeJs", "3,0..4", tier="thorough", workers=16),
+        Job("soyhtml", "H_truncate", "4..5,0..8,0..2", tier="thorough", workers=16),
+        Job("soyhtml", "H_newlineToBr", "4", tier="thorough", workers=16, maxfan=300),
+    ],
+    "bounds_quick": "escapeUri: every string of <= 2 bytes (all 256 values); escapeJsString: <= 2 ASCII bytes (incl. controls) optionally with one of U+00E9/U+2028/U+2029/U+FEFF; truncate: valid UTF-8 strings of <= 3 bytes, limit 0..5, ellipsis default/true/false; insertWordBreaks:k (k 1..3) on <= 3 ASCII bytes; changeNewlineToBr on every string of length <= 3 over {a,<,&,LF,CR,space} (regexp runs natively on concrete text); 5 chains of two directives through parser and renderer",
+    "bounds_thorough": "escapeUri 3 bytes; escapeJsString 3 bytes; truncate strings of <= 5 bytes with limits 0..8; changeNewlineToBr length 4",
+    "outside": "|json (encoding/json works through reflection: outside the engine); the JavaScript counterparts in soyutils.js (no JavaScript semantics in the engine); bidi directives (unimplemented in soy); longer strings",
+    "assumptions": ["refJSString (harness): reference decoder of ECMAScript string literal bodies, rejecting raw quotes, line terminators, control characters and < > &"],
+    "level_text": "Bounded symbolic model checking of the Go directive implementations with the value's bytes symbolic; decodability is checked by independent reference decoders executed by the same engine. Only the Go half of the property is claimed.",
+    "level_note": "json and the JS-side directives are outside the technique's reach here. Trusted: go/ssa, gosym, z3, stdlib models (validated natively), reference decoders.",
+}
